@@ -87,3 +87,79 @@ proof fn lemma_root_live_cw(st: Seq<State>, table: Seq<u32>, lm: bool)
     let w = cw_wit(st, lm);
     assert(cw_ranked(st, lm, w));
 }
+
+// ---- C13, the 2n bound for the char-wise standard automaton (n = number of characters <= number of bytes) ----
+spec fn cw_fsteps(st: Seq<State>, table: Seq<u32>, s: int, mc: u32) -> nat
+    decreases cw_rank(st, false, s)
+    when cw_wf(st, table, false) && cw_live(st, false, s)
+{
+    match cw_child(st, s, mc) {
+        Some(_) => 0,
+        None => if s == 0 { 0 } else { 1 + cw_fsteps(st, table, st[s].fail as int, mc) },
+    }
+}
+proof fn lemma_goto_live(st: Seq<State>, table: Seq<u32>, s: int, mc: u32)
+    requires cw_wf(st, table, false), cw_live(st, false, s),
+    ensures cw_live(st, false, cw_goto(st, table, s, mc)),
+    decreases cw_rank(st, false, s),
+{
+    let w = cw_wit(st, false);
+    assert(cw_ranked(st, false, w));
+    match cw_child(st, s, mc) {
+        Some(t) => { assert(w.live.contains(cw_child(st, s, mc).unwrap() as int)); }
+        None => { if s != 0 { lemma_goto_live(st, table, st[s].fail as int, mc); } }
+    }
+}
+proof fn lemma_cw_fsteps_rank(st: Seq<State>, table: Seq<u32>, s: int, mc: u32)
+    requires cw_wf(st, table, false), cw_live(st, false, s),
+    ensures cw_fsteps(st, table, s, mc) + cw_rank(st, false, cw_goto(st, table, s, mc)) <= cw_rank(st, false, s) + 1,
+    decreases cw_rank(st, false, s),
+{
+    let w = cw_wit(st, false);
+    assert(cw_ranked(st, false, w));
+    match cw_child(st, s, mc) {
+        Some(t) => { assert(w.rank[cw_child(st, s, mc).unwrap() as int] == w.rank[s] + 1); }
+        None => { if s != 0 { lemma_cw_fsteps_rank(st, table, st[s].fail as int, mc); } }
+    }
+}
+// transitions taken for one character: an unmapped character is one move to the root
+spec fn cw_char_moves(st: Seq<State>, table: Seq<u32>, s: int, c: u32) -> nat {
+    match map_code(table, c) { None => 1, Some(mc) => cw_fsteps(st, table, s, mc) + 1 }
+}
+spec fn cw_run(st: Seq<State>, table: Seq<u32>, s: int, cs: Seq<char>) -> int
+    decreases cs.len()
+{
+    if cs.len() == 0 { s } else { cw_run(st, table, cw_delta(st, table, s, cs[0] as u32), cs.skip(1)) }
+}
+spec fn cw_moves(st: Seq<State>, table: Seq<u32>, s: int, cs: Seq<char>) -> nat
+    decreases cs.len()
+{
+    if cs.len() == 0 { 0 } else { cw_char_moves(st, table, s, cs[0] as u32) + cw_moves(st, table, cw_delta(st, table, s, cs[0] as u32), cs.skip(1)) }
+}
+proof fn lemma_cw_moves_bound(st: Seq<State>, table: Seq<u32>, s: int, cs: Seq<char>)
+    requires cw_wf(st, table, false), cw_live(st, false, s),
+    ensures cw_moves(st, table, s, cs) + cw_rank(st, false, cw_run(st, table, s, cs)) <= cw_rank(st, false, s) + 2 * cs.len(),
+        cw_live(st, false, cw_run(st, table, s, cs)),
+    decreases cs.len(),
+{
+    if cs.len() > 0 {
+        let c = cs[0] as u32;
+        lemma_root_live_cw(st, table, false);
+        let w = cw_wit(st, false);
+        assert(cw_ranked(st, false, w));
+        match map_code(table, c) {
+            None => { }
+            Some(mc) => { lemma_cw_fsteps_rank(st, table, s, mc); lemma_goto_live(st, table, s, mc); }
+        }
+        lemma_cw_moves_bound(st, table, cw_delta(st, table, s, c), cs.skip(1));
+    }
+}
+proof fn lemma_cw_moves_from_root(st: Seq<State>, table: Seq<u32>, cs: Seq<char>)
+    requires cw_wf(st, table, false),
+    ensures cw_moves(st, table, 0, cs) <= 2 * cs.len(),
+{
+    lemma_root_live_cw(st, table, false);
+    let w = cw_wit(st, false);
+    assert(cw_ranked(st, false, w));
+    lemma_cw_moves_bound(st, table, 0, cs);
+}
